@@ -18,6 +18,15 @@ for pid in ("C14", "C15", "C16"):
         cfg[k] = cfg.get(k, []) + f.get(k, [])
     for k in ("assumptions", "outside"):
         cfg[k] = cfg.get(k, []) + [x for x in f.get(k, []) if x not in cfg.get(k, [])]
+    if pid == "C14":
+        # the end-to-end statement also rests on the server's reply path delivering what the implementation produced:
+        # the C03 end-to-end lemma (with race detection) is part of this check
+        c03 = json.load(open("C03.json"))
+        for k in ("quick", "thorough"):
+            extra = [r for r in c03[k] if r["harness"] == "vxH03E2E" and r["args"][:3] == ["2", "0", "0"]][:1]
+            for r in extra:
+                r = dict(r); r["bounds"] = "transport lemma shared with C03: " + r["bounds"]
+                cfg[k].append(r)
     json.dump(cfg, open(pid + ".json", "w"), indent=1)
 PY
 echo props regenerated
